@@ -112,10 +112,11 @@ def emitResults : Nat → Sess → SRes
   | 0, s => .ok s
   | f + 1, s =>
     if s.m.ds.length > max s.m.ctx.dsOpen s.m.ctx.dsLen then
-      match s.m.popData with
-      | (.ok v, m) => emitResults f (({ s with m := m } : Sess).emit (Mach.loadValueOp v))
-      | (.err e, m) => .err e { s with m := m }
-      | (.panic p, m) => .panic p { s with m := m }
+      -- bookkeeping of the build, not a step of any program: the value is taken off the stack without a
+      -- reverse-log entry (repair 0bda475 of /repo: a logged pop left an entry that reverse stepping undid)
+      match s.m.ds with
+      | v :: rest => emitResults f (({ s with m := { s.m with ds := rest } } : Sess).emit (Mach.loadValueOp v))
+      | [] => .ok s
     else .ok s
 
 /-- `context_close`. A failing `run` returns early: the saved context has been popped already and the
@@ -269,6 +270,10 @@ def unwind (mark s : Sess) : Sess :=
       special := s.m.special.drop (s.m.special.length - mark.m.special.length)
       log := s.m.log.map fun l => l.drop (l.length - (mark.m.log.map List.length).getD 0) } }
 
+/-- `forget_build_log`: drop the reverse-log entries made since the source was submitted (`mark`) -/
+def forgetBuildLog (mark m : Mach) : Mach :=
+  { m with log := m.log.map fun l => l.drop (l.length - (mark.log.map List.length).getD 0) }
+
 /-- outcome of submitting one source -/
 inductive BRes where
   /-- built (and, in eval mode, run) -/
@@ -291,7 +296,8 @@ def buildSource (fuel : Nat) (mode : Mode) (toks : List Tok) (s : Sess) : BRes :
   | .unsupported u => .unsupported u
   | .timeout => .timeout
   | .ok s2 =>
-    let s2 := { s2 with constUndo := s2.constUndo.drop (s2.constUndo.length - s.constUndo.length) }
+    -- `forget_build_log` (repair fa36941): what ran while the source was built leaves nothing in the reverse log
+    let s2 := { s2 with constUndo := s2.constUndo.drop (s2.constUndo.length - s.constUndo.length), m := forgetBuildLog s.m s2.m }
     match s2.contextClose fuel with
     | .ok s3 => .done s3
     | .err e s3 => .failed e s3
